@@ -26,7 +26,8 @@ CONSTANTS
   ArgsOf,       \* [Procs -> Seq(Labels)]: label arguments (duplicates allowed)
   MaxFaults,    \* budget of failing Delete calls
   MaxEnv,       \* budget of environment steps (AddLabels / AddCache / Put)
-  RunToGate     \* generator discipline: a call runs until its next Delete call-out
+  RunToGate,    \* generator discipline: a call runs until its next Delete call-out
+  AtomicCalls   \* generator discipline: a call runs to completion (no call-out is a gate)
 
 VARIABLES
   labeled,   \* [Names -> [Labels -> Seq(Keys)]]
@@ -64,7 +65,7 @@ Init ==
   /\ act = [p |-> "", name |-> "Init", a |-> "", b |-> "", c |-> <<>>]
 
 Sched(p) == running \in {"none", p}
-Gates == {"delete"}
+Gates == IF AtomicCalls THEN {} ELSE {"delete"}
 Run(p) == running' = IF RunToGate /\ pc'[p] \notin Gates \cup {"done"} THEN p ELSE "none"
 Act(p, name, a, b, c) == act' = [p |-> p, name |-> name, a |-> a, b |-> b, c |-> c]
 
